@@ -700,3 +700,158 @@ def simulate(ctx):
                                            "deflation" if case["defl"] else "plain"}
 
     ctx.search("simulate", cases(), body)
+
+
+# ------------------------------------------------------------------------------------------------ part 6: histories on one solver
+
+@st.composite
+def history_cases(draw, molecule_based):
+    """One solver configuration plus a generated sequence of steps on that single solver object. Steps are plain records:
+       {"op": "E", "i": k, "same": bool}        energy_estimation(theta_k) (same=True: the very array object used before)
+       {"op": "ham", "j": k}                    solver.qubit_hamiltonian = k-th operator (0 = the one it was built with)
+       {"op": "defl_add", "c": k, "inplace": b} append the k-th circuit to deflation_circuits (in place or by assignment)
+       {"op": "defl_pop"}                       remove the last deflation circuit
+       {"op": "coeff", "v": x}                  solver.deflation_coeff = x
+       {"op": "proj", "c": k | None}            set / clear solver.projective_circuit
+       {"op": "opexp", "j": k, "i": m}          operator_expectation(k-th operator, theta_m) (swaps the Hamiltonian temporarily)"""
+    if molecule_based:
+        base = draw(mol_solver_cases(names=["UCCSD", "HEA", "UpCCGSD", "pUCCD", "QMF"], allow_ref=False, allow_proj=False,
+                                     allow_penalty=False, big=False))
+        info = H.active_info(base["mol"])
+        nq = n_qubits_for("HCB" if base["ansatz"] == "pUCCD" else base["mapping"], info["n_sos"])
+    else:
+        base = draw(qham_cases())
+        base["ref"], base["proj"] = None, None
+        nq = base["n"]
+    pool = [draw(H.theta_specs()) for _ in range(draw(st.integers(1, 3)))]
+    hams = [draw(real_qubit_ops(nq, max_terms=5)) for _ in range(2)]
+    circs = [draw(small_circuit(draw(st.integers(max(1, nq - 1), nq)), max_gates=5, min_gates=1)) for _ in range(3)]
+
+    def change():
+        k = draw(st.integers(0, 6))
+        if k <= 1:
+            return {"op": "ham", "j": draw(st.integers(0, 2))}
+        if k == 2:
+            return {"op": "defl_add", "c": draw(st.integers(0, 2)), "inplace": draw(st.booleans())}
+        if k == 3:
+            return {"op": "defl_pop"}
+        if k == 4:
+            return {"op": "coeff", "v": draw(st.sampled_from([1.0, 0.5, 2.5, -1.0, 0.0]))}
+        if k == 5:
+            return {"op": "proj", "c": draw(st.sampled_from([0, 1, 2, None]))}
+        return {"op": "opexp", "j": draw(st.integers(0, 2)), "i": draw(st.integers(0, len(pool) - 1))}
+
+    steps = []
+    for _ in range(draw(st.integers(1, 5))):
+        # a round: evaluate, re-configure the solver, evaluate again - mostly at the same parameters
+        i = draw(st.integers(0, len(pool) - 1))
+        steps.append({"op": "E", "i": i, "same": False})
+        for _ in range(draw(st.integers(0, 2))):
+            steps.append(change())
+        j = i if draw(st.integers(0, 2)) > 0 else draw(st.integers(0, len(pool) - 1))
+        steps.append({"op": "E", "i": j, "same": draw(st.booleans())})
+    return {"base": base, "mol_based": molecule_based, "pool": pool, "hams": hams, "circs": circs, "steps": steps}
+
+
+@part("history", quick=72, thorough=2400)
+def history(ctx):
+    def body(case):
+        base = case["base"]
+        if case["mol_based"]:
+            _, solver = build_mol_solver(ctx, base)
+        else:
+            solver = build_qham_solver(ctx, base)
+        n_par = solver.ansatz.n_var_params
+        thetas = [np.array(H.theta_vector(sp, n_par), dtype=float) for sp in case["pool"]]
+        ham_ops = [solver.qubit_hamiltonian] + [S.build_qubit_op(h) for h in case["hams"]]
+        circs = [S.build_circuit(c) for c in case["circs"]]
+        # model of the configuration the solver is in
+        m_ham, m_defl, m_coeff, m_proj = 0, [], solver.deflation_coeff, None
+        labels, last_E, changed_since, stale_window = set(), {}, {}, False
+        nontrivial = False
+        for pos, st_ in enumerate(case["steps"]):
+            op = st_["op"]
+            if op == "ham":
+                solver.qubit_hamiltonian = ham_ops[st_["j"]]
+                m_ham = st_["j"]
+            elif op == "defl_add":
+                if st_["inplace"]:
+                    solver.deflation_circuits.append(circs[st_["c"]])
+                else:
+                    solver.deflation_circuits = list(solver.deflation_circuits) + [circs[st_["c"]]]
+                m_defl = m_defl + [st_["c"]]
+            elif op == "defl_pop":
+                if m_defl:
+                    solver.deflation_circuits.pop()
+                    m_defl = m_defl[:-1]
+            elif op == "coeff":
+                solver.deflation_coeff = st_["v"]
+                m_coeff = st_["v"]
+            elif op == "proj":
+                solver.projective_circuit = None if st_["c"] is None else circs[st_["c"]]
+                m_proj = st_["c"]
+            elif op == "opexp":
+                th = thetas[st_["i"]]
+                val = solver.operator_expectation(ham_ops[st_["j"]], th)
+                n = max(H.op_n_qubits(ham_ops[st_["j"]].terms), H.op_n_qubits(solver.qubit_hamiltonian.terms))
+                psi, n = H.run_circuits([solver.ansatz.circuit, solver.projective_circuit if solver.projective_circuit else None], n=n)
+                ref, _ = H.expectation(ham_ops[st_["j"]].terms, psi, n)
+                if abs(complex(val) - ref) > TOL:
+                    raise Fail(f"step {pos}: operator_expectation = {val!r}, state has {ref!r}", sig="history:operator-expectation")
+                if solver.qubit_hamiltonian is not ham_ops[m_ham]:
+                    raise Fail(f"step {pos}: operator_expectation did not restore solver.qubit_hamiltonian", sig="history:hamiltonian-not-restored")
+                labels.add("op=opexp")
+            if op != "E":
+                if op != "opexp":
+                    for k in changed_since:
+                        changed_since[k] = True
+                    labels.add("op=" + op)
+                continue
+            # ---- energy evaluation: oracle from the solver's current configuration
+            i = st_["i"]
+            th = thetas[i] if st_["same"] else thetas[i].copy()
+            e = solver.energy_estimation(th)
+            if solver.qubit_hamiltonian is not ham_ops[m_ham] or len(solver.deflation_circuits) != len(m_defl) or solver.deflation_coeff != m_coeff:
+                raise Fail(f"step {pos}: energy_estimation altered the solver configuration", sig="history:configuration-altered")
+            terms = solver.qubit_hamiltonian.terms
+            dcs = list(solver.deflation_circuits)
+            n = max([H.op_n_qubits(terms), solver.ansatz.circuit.width] + [c.width for c in dcs]
+                    + ([solver.projective_circuit.width] if solver.projective_circuit else []))
+            psi, n = H.run_circuits([solver.ansatz.circuit, solver.projective_circuit if solver.projective_circuit else None], n=n)
+            ref, _ = H.expectation(terms, psi, n)
+            pen = sum(solver.deflation_coeff * abs(np.vdot(H.run_circuits([c], n=n)[0], psi)) ** 2 for c in dcs)
+            expect = ref.real + pen
+            if not np.isfinite(complex(e)) or abs(complex(e) - expect) > TOL * max(1.0, abs(m_coeff)):
+                repeat = i in last_E and changed_since.get(i, False)
+                raise Fail(f"step {pos}: energy_estimation = {e!r}; current configuration (Hamiltonian #{m_ham}, {len(dcs)} deflation "
+                           f"circuit(s), coeff {m_coeff}, projective {m_proj}) gives {expect!r}"
+                           + (f"; value of the earlier evaluation at the same parameters: {last_E[i]!r}" if i in last_E else ""),
+                           sig="history:energy-vs-current-configuration" + (":repeat-after-reconfiguration" if repeat else ""))
+            if not dcs:
+                lam, herm = H.lambda_min(terms)
+                if herm < 1e-9 and complex(e).real < lam - TOL:
+                    raise Fail(f"step {pos}: energy {e!r} below lambda_min {lam!r} of the current Hamiltonian", sig="history:below-lambda-min")
+            if i in last_E and changed_since.get(i, False):
+                labels.add("same-theta-after-reconfiguration")
+                if abs(last_E[i] - expect) > 1e-6:
+                    labels.add("same-theta-after-reconfiguration:energy-differs")
+                    nontrivial = True
+                if st_["same"]:
+                    labels.add("same-array-object")
+            elif i in last_E:
+                labels.add("same-theta-unchanged-configuration")
+            # only the immediately preceding evaluation matters for a one-entry memory, but track all
+            last_E[i] = expect
+            changed_since[i] = False
+            if dcs:
+                labels.add("deflation-active")
+            if solver.projective_circuit:
+                labels.add("projective-active")
+            if m_ham:
+                labels.add("hamiltonian-replaced")
+        labels.add("mol-based" if case["mol_based"] else "qham-based")
+        labels.add(f"steps={min(len(case['steps']), 12)}")
+        return nontrivial, labels
+
+    ctx.search("history_qham", history_cases(False), body, frac=0.7)
+    ctx.search("history_mol", history_cases(True), body, frac=0.3, exclusions={SIG_ZERO: is_zero_ucc})
